@@ -117,6 +117,19 @@ Theorem C10_mae_at_most_rmse : forall weighted f pw, (forall a, In a pw -> 0 <= 
 Proof. exact mae_lower_end_at_most_rmse. Qed.
 Print Assumptions C10_mae_at_most_rmse.
 
+(* constant weights are not "no weights" for std: with all weights equal to c > 0 the weighted (reliability-weights)
+   estimator is n / (n - 1) times the unweighted population estimator of the same residuals, while rmse is the same *)
+Theorem C10_std2_constant_weights : forall c f pw, 0 < c -> (2 <= length pw)%nat ->
+  (forall a, In a pw -> snd a == c) ->
+  fst (stat2_encl SStd true f pw) == qlen pw / (qlen pw - 1) * fst (stat2_encl SStd false f (unit_w pw)).
+Proof. exact std2_constant_weights. Qed.
+Print Assumptions C10_std2_constant_weights.
+Theorem C10_rmse2_constant_weights : forall c f pw weighted, 0 < c -> (1 <= length pw)%nat ->
+  (forall a, In a pw -> snd a == c) ->
+  fst (stat2_encl SRmse weighted f pw) == fst (stat2_encl SRmse false f (unit_w pw)).
+Proof. exact rmse2_constant_weights. Qed.
+Print Assumptions C10_rmse2_constant_weights.
+
 (* non-vacuity: residuals (3,4) and (0,0) with weights 1, 1: rmse^2 = 25/2, mae in [5/2, 5/2], weighted std^2 = 25/2 *)
 Example C10_stats_witness :
   let f := {| f00 := 1; f01 := 0; f10_ := 0; f11_ := 1; fs0 := 0; fs1 := 0 |} in
